@@ -221,13 +221,14 @@ pub struct CaseB {
     pub clock: Option<String>,
     /// shim plan on the log fd (class f), transient only
     pub plan: String,
+    pub stale_log: bool,
     pub hash_seed: u64,
 }
 
 impl CaseB {
     pub fn to_json(&self) -> Value {
         json!({"engine": ENGINE_B, "program": self.spec.to_json(), "profile": self.profile.name(), "action": self.action, "size_mb": self.size_mb,
-               "log_path": self.log_path, "clock": self.clock, "plan": self.plan, "hash_seed": self.hash_seed})
+               "log_path": self.log_path, "clock": self.clock, "plan": self.plan, "stale_log": self.stale_log, "hash_seed": self.hash_seed})
     }
     pub fn from_json(v: &Value) -> Option<CaseB> {
         Some(CaseB {
@@ -238,6 +239,7 @@ impl CaseB {
             log_path: v.get("log_path")?.as_str()?.to_string(),
             clock: v.get("clock").and_then(|c| c.as_str()).map(|s| s.to_string()),
             plan: v.get("plan")?.as_str()?.to_string(),
+            stale_log: v.get("stale_log").and_then(|x| x.as_bool()).unwrap_or(false),
             hash_seed: v.get("hash_seed")?.as_u64()?,
         })
     }
@@ -287,6 +289,14 @@ pub fn check_b(case: &CaseB) -> Result<Option<ObsB>, (String, String)> {
     let size_text = case.size_mb.map(|s| s.to_string());
     let mut args: Vec<&str> = vec![case.action.as_str(), input, "--heap-log", case.log_path.as_str()];
     if let Some(s) = &size_text { args.push("--heap-size"); args.push(s.as_str()); }
+    if case.stale_log {
+        // an older, longer log already sits at the path: it must be replaced, not overlaid
+        let path = dir.join(&case.log_path);
+        if let Some(parent) = path.parent() { let _ = std::fs::create_dir_all(parent); }
+        let mut old = String::from("timestamp,event,heap\n1,S,0\n");
+        for i in 0..400 { old.push_str(&format!("{},A,{}\n", i + 2, (i + 1) * 1000)); }
+        std::fs::write(&path, old).unwrap();
+    }
     let mut flagged = Child::new(case.profile, &args);
     flagged.shim = Some(ShimCfg { seed: case.hash_seed ^ 0x55, plan: case.plan.clone(), clock: case.clock.clone(), junk: 0, budget: Some(2_000_000) });
     let f = run_child(&dir, &flagged);
@@ -357,6 +367,7 @@ fn minimise_b(case: &CaseB, oracle: &str) -> CaseB {
     let mut best = case.clone();
     if !best.plan.is_empty() { let mut c = best.clone(); c.plan = String::new(); if still(&c) { best = c; } }
     if best.clock.is_some() { let mut c = best.clone(); c.clock = None; if still(&c) { best = c; } }
+    if best.stale_log { let mut c = best.clone(); c.stale_log = false; if still(&c) { best = c; } }
     if best.size_mb.is_some() { let mut c = best.clone(); c.size_mb = None; if still(&c) { best = c; } }
     if best.action != "run" { let mut c = best.clone(); c.action = "run".into(); if still(&c) { best = c; } }
     if let ProgSpec::Stmts(stmts) = &best.spec {
@@ -542,6 +553,7 @@ pub fn run(seed: u64, tier: &str, ev: &mut Evidence) -> Vec<Violation> {
             log_path: (*rng.pick(&["heap.csv", "logs/heap.csv", "a/b/c/heap log.csv", "./h"])).to_string(),
             clock: (*rng.pick(&clocks)).map(|s| s.to_string()),
             plan: match rng.below(4) { 0 => format!("f:*:l:{}", rng.pick(&[1u32, 2, 3, 5])), 1 => format!("f:{}:e:0", rng.below(8)), 2 => format!("f:{}:s:1", rng.below(8)), _ => String::new() },
+            stale_log: rng.below(4) == 0,
             hash_seed: rng.next_u64(),
         };
         match check_b(&case) {
